@@ -134,41 +134,66 @@ def programObs (head : String) (loaded m : Machine) (w : World) : String :=
 
 def hasExit (cs : List Command) : Bool := cs.any (· == .exit)
 
-/-- `D09 …`: run the session on the model; answer as `harness/src/dbg.rs::run_debug` prints it,
-followed by the comparison with the undebugged run of the same image. -/
-def handleDbg (cmpPlain : Bool) (toks : List String) : String :=
+def c10Alphabet (cs : List Command) : Bool :=
+  cs.all fun c => match c with
+    | .stepOver | .stepInto _ | .stepOut | .continue_ | .breakAdd _ | .breakRemove _ | .exit | .quit => true
+    | _ => false
+
+def progBody (loaded m : Machine) (w : World) : String :=
+  showRegs m ++ " |" ++ memDiff loaded m ++ " | " ++ charsHex w.output
+
+/-- Run the session on the model; answer as `harness/src/dbg.rs::run_debug` prints it, followed
+by the property-specific verdict (computed here on the model exactly as the harness computes
+it on the implementation). The `S` answer states what the property demands of the verdict. -/
+def handleDbg (tag : String) (toks : List String) : String :=
   match parseDbgReq toks with
   | none => "bad-request"
   | some r =>
     match Run.fromRaw (r.orig :: r.words) with
-    | .exit c => "M loadexit " ++ toString c
-    | .panic _ => "M loadpanic"
+    | .exit c => "M loadexit " ++ toString c ++ " | -"
+    | .panic _ => "M loadpanic | -"
     | .ok loaded =>
       let env := fillEnv r
       let w : World := { inp := r.inp, outRev := [] }
       let d := newDbg loaded (r.breaks.map (BitVec.ofNat 16)) r.cmds
-      let fmt (head : String) (att : Bool) (d : Dbg) (m : Machine) (w : World) (ex : List Word) : String × String :=
+      let fmt (head : String) (att : Bool) (d : Dbg) (m : Machine) (w : World) (ex : List Word) :
+          String × String × String × Nat :=
         let pcs := ex.reverse
         (head ++ " " ++ showRegs m ++ " |" ++ memDiff loaded m ++ " | " ++ showWorld w ++ " | " ++
           toString pcs.length ++ " " ++ hex16 (fnv pcs) ++ " | " ++ toString d.ncmds ++ " " ++
           hex16 (fnv (d.cmdAt.reverse.map (BitVec.ofNat 16))) ++ " | " ++
-          showBps att d ++ " | " ++ showErr d, programObs head loaded m w)
-      let (line, prog) :=
+          showBps att d ++ " | " ++ showErr d, head, progBody loaded m w, pcs.length)
+      let (line, head, body, nexec) :=
         match runLoop env r.fuel true d loaded w [] with
         | .done att d m w ex => fmt "done" att d m w ex
         | .exit c att d m w ex => fmt ("exit " ++ toString c) att d m w ex
         | .fuel att d m w ex => fmt "fuel" att d m w ex
-        | .panic _ => ("panic", "panic")
-      if !cmpPlain then "M " ++ line else
-      let plain :=
-        match Run.loop r.so true r.fuel loaded w with
-        | .done m w => programObs "done" loaded m w
-        | .exit c m w => programObs ("exit " ++ toString c) loaded m w
-        | .fuel m w => programObs "fuel" loaded m w
-        | .panic _ => "panic"
-      let inconclusive := hasExit r.cmds || line.startsWith "fuel" || plain.startsWith "fuel"
-      let same := if inconclusive || prog == plain then "plain=same" else "plain=differs"
-      -- the specification (transparency) says: always the same
-      "M " ++ line ++ " | " ++ same ++ " ;; S " ++ line ++ " | plain=same"
+        | .panic _ => ("panic", "panic", "", 0)
+      let plainRun (fuel : Nat) : String × String :=
+        match Run.loop r.so true fuel loaded w with
+        | .done m w => ("done", progBody loaded m w)
+        | .exit c m w => ("exit " ++ toString c, progBody loaded m w)
+        | .fuel m w => ("fuel", progBody loaded m w)
+        | .panic _ => ("panic", "")
+      let (verdict, demanded) : String × String :=
+        if tag == "D09" then
+          let (ph, pb) := plainRun r.fuel
+          let inconclusive := hasExit r.cmds || head == "fuel" || ph == "fuel"
+          (if inconclusive || (head == ph && body == pb) then "plain=same" else "plain=differs", "plain=same")
+        else if tag == "D10" then
+          if !c10Alphabet r.cmds || head == "fuel" || head == "panic" then ("adv=na", "adv=na")
+          else
+            let (_, pb) := plainRun nexec
+            (if body == pb then "adv=same" else "adv=differs", "adv=same")
+        else if tag == "D12" then
+          let n := r.cmds.length
+          if n ≥ 2 && r.cmds[n - 2]? == some .reset && r.cmds[n - 1]? == some .exit && head == "done" then
+            let want := hexW r.orig ++ " 0 0000 0000 0000 0000 0000 0000 0000 fdff | - |"
+            (if body.startsWith want then "reset=ok" else "reset=bad", "reset=ok")
+          else ("reset=na", "reset=na")
+        else if tag == "D16" then ("progress=ok", "progress=ok")
+        else ("-", "-")
+      if line == "panic" then "M panic | -" else
+      "M " ++ line ++ " | " ++ verdict ++ " ;; S " ++ line ++ " | " ++ demanded
 
 end Lace.Driver
